@@ -10,6 +10,7 @@ import Liftbridge.Driver.LogDrv
 import Liftbridge.Driver.TelemetryDrv
 import Liftbridge.Driver.AuthzDrv
 import Liftbridge.Driver.GroupsDrv
+import Liftbridge.Driver.SealDrv
 
 namespace Liftbridge.Driver
 open Liftbridge
@@ -52,6 +53,7 @@ def step (st : St) (line : String) : St × String :=
   | "c14" :: rest => (st, c14 rest)
   | "c19" :: rest => (st, c19 rest)
   | "c15" :: rest => (st, c15Step rest)
+  | "c17" :: rest => (st, c17 rest)
   | "c12" :: rest => let (g, out) := groupsStep st.groups rest; ({ st with groups := g }, out)
   | "log" :: rest => let (l, out) := logStep st.log rest; ({ st with log := l }, out)
   | _ => (st, "bad-op")
